@@ -275,7 +275,10 @@ def unit_eliminate(ctx):
   matid = kt.pre("geom_matid", g)
   mask = list(A["geomgroup"].c)
   want = ref_eliminate(bodyid, matid, kt.pre("geom_rgba", g, k=3), kt.pre("mat_rgba", matid, k=3), kt.pre("body_weldid", bodyid), kt.pre("geom_group", g), mask, A["flg_static"], A["bodyexclude"])
-  sess = ctx.session(kt.bg)
+  shp = lambda l: A[l].cell.shape[0]
+  inv = [g >= 0, g < shp("geom_bodyid"), g < shp("geom_matid"), g < shp("geom_group"), g < shp("geom_rgba"), bodyid >= 0, bodyid < shp("body_weldid"), matid >= -1, matid < shp("mat_rgba")]
+  ctx.assume("Model invariants: geom_bodyid in [0, nbody), geom_matid in [-1, nmat), per-geom arrays hold ngeom entries")
+  sess = ctx.session(kt.bg + inv)
   ctx.reach(sess, "twin:eliminated", want)
   ctx.reach(sess, "twin:kept-by-mask", And(Not(want), Not(ref_group_filtering_off(mask))))
   names = {"geomid": g, "bodyid": bodyid, "matid": matid, "group": kt.pre("geom_group", g), "weldid": kt.pre("body_weldid", bodyid), "flg_static": A["flg_static"], "bodyexclude": A["bodyexclude"]}
@@ -405,7 +408,10 @@ def _patch_scene(path, w, r, n, dvals):
       y = rad * 0.25 * (levels.index(d) % 3)
       setv("geom_xpos_in", (w, g), [d + float(np.sqrt(rad * rad - y * y)), y, 0.0])
   for row in range(A["pnt"]["shape"][0]):
-    setv("pnt", (row, r), [0.0, 0.0, 0.0])
+    # rows differ (a wrong world row changes the distances); the row of this world starts at the origin
+    k = (row - w % A["pnt"]["shape"][0]) % A["pnt"]["shape"][0]
+    setv("pnt", (row, r), [-0.25 * k, 0.0, 0.0])
+  for row in range(A["vec"]["shape"][0]):
     setv("vec", (row, r), [1.0, 0.0, 0.0])
   with open(path, "w") as f:
     json.dump(spec, f, indent=1, default=str)
@@ -428,7 +434,7 @@ def unit_select(n, B):
       "tile model: wp.tile gathers one value per thread of the block, wp.tile_argmin returns the lowest index among the minima (Warp's tracker replaces the champion only when strictly smaller)",
       "per-geom intersection functions (ray_geom / ray_mesh / ray_hfield) are free symbols: -1 (miss) or a distance in [0, mjMAXVAL)",
       "array accesses of every thread of the block in bounds (C17 decides bounds)",
-      "launch shapes as asserted by rays(): pnt / vec (1 or nworld, nray), bodyexclude (nray), outputs (nworld, nray); Model arrays hold ngeom entries",
+      "launch shapes as asserted by rays(): pnt / vec (1 or nworld, nray), bodyexclude (nray), outputs (nworld, nray); Model arrays hold ngeom entries; geom_bodyid in [0, nbody), geom_matid in [-1, nmat)",
     )
     w, r = z3.Int("worldid"), z3.Int("rayid")
     cells = {}
@@ -499,6 +505,7 @@ def unit_select(n, B):
     for g in range(n):
       bodyid = rd("geom_bodyid", g)
       matid = rd("geom_matid", w % shp("geom_matid"), g)
+      bg += [bodyid >= 0, bodyid < shp("body_weldid"), matid >= -1, matid < shp("mat_rgba", 1)]  # Model invariants
       el = ref_eliminate(bodyid, matid, rd("geom_rgba", w % shp("geom_rgba"), g, k=3), rd("mat_rgba", w % shp("mat_rgba"), matid, k=3), rd("body_weldid", bodyid), rd("geom_group", g), mask, A["flg_static"], be)
       elig.append(Not(el))
       ty = rd("geom_type", g)
@@ -511,6 +518,20 @@ def unit_select(n, B):
     names = {"worldid": w, "rayid": r, "best": best, "best_dist": bestd, "flg_static": A["flg_static"], "bodyexclude": be}
     names.update({f"dist{g}": dist[g] for g in range(n)})
     names.update({f"eligible{g}": core.zbool(elig[g]) for g in range(n)})
+    def make_rp(sess, neg, nm, t):
+      def rp(model):
+        # re-solve inside a well-conditioned region (distances in {-1, 1, 2, 3}) before replaying
+        nice = [z3.Or(*[d == v for v in (-1, 1, 2, 3)]) for kd in "pmh" for d in Dk[kd]] + [rd("geom_type", g) == int(GeomType.SPHERE) for g in range(n)]
+        res, _, m2 = sess._check([neg] + nice)
+        if res == "sat":
+          model = m2
+        dv = [kh.mval(model, dist[g]) for g in range(n)]
+        path = replay.write_spec(ctx.pid, ctx.unit, f"{nm}-t{t}", "mujoco_warp._src.ray:_ray", k, args, model, (w, r, 0), "goal", goal="checks.c34:goal_select", env={"w": w, "r": r, "n": n, "block_dim_of_the_model": B}, note="CPU replays run with block_dim 1")
+        _patch_scene(path, int(kh.mval(model, w)), int(kh.mval(model, r)), n, dv)
+        return replay.run_spec(path, timeout=900)
+
+      return rp
+
     for t in range(B):
       it = TileInterp(B, "block", rec=rec, summaries=summ, unroll=4, tid=(w, r, t))
       kh.run(k, args, tid=(w, r, t), interp=it)
@@ -540,17 +561,7 @@ def unit_select(n, B):
       for nm, goal, desc in goals:
         neg = z3.Not(goal)
 
-        def rp(model, sess=sess, neg=neg, nm=nm, t=t):
-          # re-solve inside a well-conditioned region (distances in {-1, 1, 2, 3}) before replaying
-          nice = [z3.Or(*[d == v for v in (-1, 1, 2, 3)]) for kd in "pmh" for d in Dk[kd]] + [rd("geom_type", g) == int(GeomType.SPHERE) for g in range(n)]
-          res, _, m2 = sess._check([neg] + nice)
-          if res == "sat":
-            model = m2
-          dv = [kh.mval(model, dist[g]) for g in range(n)]
-          path = replay.write_spec(ctx.pid, ctx.unit, f"{nm}-t{t}", "mujoco_warp._src.ray:_ray", k, args, model, (w, r, 0), "goal", goal="checks.c34:goal_select", env={"w": w, "r": r, "n": n, "block_dim_of_the_model": B}, note="CPU replays run with block_dim 1")
-          _patch_scene(path, int(kh.mval(model, w)), int(kh.mval(model, r)), n, dv)
-          return replay.run_spec(path, timeout=900)
-
+        rp = make_rp(sess, neg, nm, t)
         ctx.prove(sess, f"t{t}/{nm}", goal, names=names, replay=rp, desc=f"_ray (ngeom {n}, block_dim {B}, thread {t}): {desc}")
       # every thread stores its result at [world, ray] and nowhere else
       for c, lab in zip(outs, ("dist_out", "geomid_out", "normal_out")):
@@ -578,7 +589,8 @@ def unit_select(n, B):
         veq(vec, "vec", w % shp("vec"), r),
         cmp("==", ty, rd("geom_type", g)),
       )
-      ctx.prove(sess, f"per-geom-call/{g}/arguments", good, c["guard"], names={"worldid": w, "rayid": r}, replay=lambda m: (True, "model only (argument wiring)"), desc=f"_ray: ray_geom for geom {g} is not called with (geom_xpos[world, g], geom_xmat[world, g], geom_size[world % n, g], pnt[world % n, ray], vec[world % n, ray], geom_type[g])")
+      wide = [shp("pnt", 0) >= 2, shp("geom_size", 0) >= 2] if False else []
+      ctx.prove(sess, f"per-geom-call/{g}/arguments", good, c["guard"], names={"worldid": w, "rayid": r}, replay=make_rp(sess, z3.And(core.zbool(c["guard"]), z3.Not(core.zbool(good)), rd("geom_type", g) == int(GeomType.SPHERE), *[Dk["p"][g2] == (1 + g2 if g2 == g else -1) for g2 in range(n)], core.zbool(elig[g])), f"args{g}", 0), desc=f"_ray: ray_geom for geom {g} is not called with (geom_xpos[world, g], geom_xmat[world, g], geom_size[world % n, g], pnt[world % n, ray], vec[world % n, ray], geom_type[g])")
 
   return (f"select/ngeom{n}/block{B}", run)
 
